@@ -120,6 +120,7 @@ var tgIface = reflect.TypeOf((*interface{})(nil)).Elem()
 type tgOpts struct {
 	named    bool // include the named types with methods
 	lossless bool // only round-trippable features (C04)
+	wide     bool // 6..19 fields at the top level (the 16-bit key matcher needs more than 8 names)
 }
 
 func tgType(r *rand.Rand, depth int, o tgOpts) reflect.Type {
@@ -173,6 +174,10 @@ func tgType(r *rand.Rand, depth int, o tgOpts) reflect.Type {
 
 func tgStruct(r *rand.Rand, depth int, o tgOpts) reflect.Type {
 	n := 1 + r.Intn(5)
+	if o.wide {
+		n = 6 + r.Intn(14)
+		o.wide = false
+	}
 	var fs []reflect.StructField
 	used := map[string]bool{}
 	for i := 0; i < n; i++ {
